@@ -36,25 +36,29 @@ var theCid = clus.Cid("c03")
 
 // rig is one real Cluster peer plus handles on the seams.
 type rig struct {
-	t      *testing.T
-	ctx    context.Context
-	p      *clus.Peer
-	h      host.Host
-	mon    *clus.Mon          // nil when the real pubsubmon is used
-	rmon   *pubsubmon.Monitor // real monitor (second configuration)
-	shared *clus.Shared
-	cons   *clus.MemConsensus
-	pids   []peer.ID
-	idx    map[peer.ID]int
-	alloc  string
-	defMin int
-	defMax int
-	curSt   []int // metric vector currently installed
-	ttlPast bool  // realise "expired" with a TTL already in the past at insertion
-	history bool  // precede every metric by an older one of the opposite health
-	opts    rigOpts
-	buf     []evalRec
-	nSeen   int
+	t        *testing.T
+	ctx      context.Context
+	p        *clus.Peer
+	h        host.Host
+	mon      *clus.Mon          // nil when the real pubsubmon is used
+	rmon     *pubsubmon.Monitor // real monitor (second configuration)
+	shared   *clus.Shared
+	cons     *clus.MemConsensus
+	pids     []peer.ID
+	idx      map[peer.ID]int
+	alloc    string
+	defMin   int
+	defMax   int
+	curSt    []int // metric vector currently installed
+	ttlPast  bool  // realise "expired" with a TTL already in the past at insertion
+	history  bool  // precede every metric by an older one of the opposite health
+	opts     rigOpts
+	buf      []evalRec
+	nSeen    int
+	sampled  map[string]bool
+	dry      bool // count only (unit weights)
+	nDry     int
+	nSet     int
 	psCancel context.CancelFunc
 }
 
@@ -184,6 +188,10 @@ func (r *rig) mkMetric(i int, value string, valid bool, ttl time.Duration) *api.
 // then advancing the fake clock by 11s (or, when ttlPast, by a TTL already in
 // the past at insertion). nonnum is the non-numeric value to use.
 func (r *rig) setMetrics(n int, st []int, nonnum string) {
+	if r.dry {
+		r.nSet++
+		return
+	}
 	if r.mon == nil {
 		r.t.Fatal("setMetrics needs the injectable monitor (the real monitor cannot forget metrics)")
 	}
@@ -194,6 +202,10 @@ func (r *rig) setMetrics(n int, st []int, nonnum string) {
 }
 
 func (r *rig) installMetrics(n int, st []int, nonnum string) {
+	if r.dry {
+		r.nSet++
+		return
+	}
 	anyExp := false
 	injected := map[int]*api.Metric{}
 	if r.history {
@@ -420,6 +432,10 @@ func (r *rig) run(c Case) Obs {
 
 // evaluate runs, judges and reports one case; returns the observation.
 func (r *rig) evaluate(sec string, c Case) Obs {
+	if r.dry {
+		r.nDry++
+		return Obs{}
+	}
 	o := r.run(c)
 	r.report(sec, c, o)
 	return o
@@ -438,6 +454,7 @@ var (
 
 func flushRecs(recs []evalRec) {
 	for _, e := range recs {
+		usedSecs[e.sec] = true
 		s := R.Sec(e.sec)
 		R.Eval(s, e.sig, e.nt)
 		R.Outcome(s, e.outc)
@@ -477,6 +494,16 @@ func (r *rig) report(sec string, c Case, o Obs) {
 		outc = fmt.Sprintf("invalid(%d,%d):%s", mn, mx, outc)
 	}
 	rec := evalRec{sec: sec, sig: sig, outc: outc, nt: nt}
+	if nt && c.N >= 2 && len(c.Cur) > 0 {
+		tag := sec + ":" + outc
+		if !r.sampled[tag] && (o.Failed || len(o.Returned) > len(c.Cur) || len(o.Stored) > len(c.Cur)) {
+			if r.sampled == nil {
+				r.sampled = map[string]bool{}
+			}
+			r.sampled[tag] = true
+			R.SampleTagged(tag, 1, map[string]interface{}{"case": c.String(), "observed": o})
+		}
+	}
 	for _, v := range judge(c, o) {
 		key := fmt.Sprintf("C03|%s|%s|%s", c.Entry, c.Alloc, v.clause)
 		R.Violation(key, map[string]interface{}{"case": c, "case_text": c.String(), "observed": o, "why": v.msg,
